@@ -12,6 +12,16 @@ type Mutex struct {
 	id     int
 	vc     VC
 	nwait  int
+	owner  *Sim
+}
+
+// fresh: a mutex that outlives a simulated run (a package-level variable of the code under test)
+// starts the next run unlocked, as it would in a new process; a run abandoned with goroutines still
+// holding it must not leak into the runs executed after it.
+func (m *Mutex) fresh() {
+	if m.owner != S {
+		*m = Mutex{owner: S}
+	}
 }
 
 func (m *Mutex) name() string {
@@ -23,6 +33,7 @@ func (m *Mutex) name() string {
 }
 
 func (m *Mutex) Lock() {
+	m.fresh()
 	s := S
 	if m.locked {
 		m.nwait++
@@ -38,6 +49,7 @@ func (m *Mutex) Lock() {
 }
 
 func (m *Mutex) TryLock() bool {
+	m.fresh()
 	s := S
 	if m.locked {
 		s.event("trylock-fail", m.name())
@@ -52,6 +64,7 @@ func (m *Mutex) TryLock() bool {
 }
 
 func (m *Mutex) Unlock() {
+	m.fresh()
 	s := S
 	if !m.locked {
 		panic("sync: unlock of unlocked mutex")
@@ -73,6 +86,13 @@ type RWMutex struct {
 	id      int
 	wvc     VC // released by writers
 	rvc     VC // released by readers (joined by the next writer)
+	owner   *Sim
+}
+
+func (m *RWMutex) fresh() {
+	if m.owner != S {
+		*m = RWMutex{owner: S}
+	}
 }
 
 func (m *RWMutex) name() string {
@@ -84,6 +104,7 @@ func (m *RWMutex) name() string {
 }
 
 func (m *RWMutex) Lock() {
+	m.fresh()
 	s := S
 	if m.w || m.readers > 0 {
 		s.Stats.MutexContended++
@@ -98,6 +119,7 @@ func (m *RWMutex) Lock() {
 }
 
 func (m *RWMutex) Unlock() {
+	m.fresh()
 	s := S
 	if !m.w {
 		panic("sync: Unlock of unlocked RWMutex")
@@ -110,6 +132,7 @@ func (m *RWMutex) Unlock() {
 }
 
 func (m *RWMutex) RLock() {
+	m.fresh()
 	s := S
 	if m.w {
 		s.Stats.MutexContended++
@@ -123,6 +146,7 @@ func (m *RWMutex) RLock() {
 }
 
 func (m *RWMutex) RUnlock() {
+	m.fresh()
 	s := S
 	if m.readers <= 0 {
 		panic("sync: RUnlock of unlocked RWMutex")
@@ -135,6 +159,7 @@ func (m *RWMutex) RUnlock() {
 }
 
 func (m *RWMutex) TryLock() bool {
+	m.fresh()
 	if m.w || m.readers > 0 {
 		return false
 	}
@@ -145,6 +170,7 @@ func (m *RWMutex) TryLock() bool {
 }
 
 func (m *RWMutex) TryRLock() bool {
+	m.fresh()
 	if m.w {
 		return false
 	}
